@@ -21,7 +21,7 @@ ID = "C04"
 LEVEL = "exploration"
 BATCH = 1
 TIMEOUT = 3000
-REQUIRED_OBS = ["element_sums_checked", "charge_sums_checked", "helper_values_checked", "backend_dense", "backend_sparse", "tag_spelling_upper_replace", "tag_G_prefix_file", "tag_grain_charge_states", "tag_isotope_ice",
+REQUIRED_OBS = ["element_sums_checked", "charge_sums_checked", "helper_values_checked", "backend_dense", "backend_sparse", "tag_spelling_upper_replace", "tag_G_prefix_file", "tag_grain_charge_states", "tag_isotope_ice", "tag_isolated_required_species",
                 "tag_mixed_electron_spelling", "tag_ice_species", "tag_labelled_species"]
 RULE = ("networks balanced by construction (ions, electrons spelt e-/E-/E/e, ortho/para labels, D isotopologues, ice species "
         "with gas counterparts under '#' and 'G' prefixes, entry via API or merged files with different spellings) x injected "
@@ -165,6 +165,16 @@ def make_case(rng, tier):
     if not case.get("spelling") and rng.random() < 0.25:
         add_grain_charging(rng, net)
         case["grain_charging"] = True
+    if not case.get("spelling") and rng.random() < 0.3:
+        # a species that takes part in no reaction (kept for cooling / mean molecular weight): its derivative is exactly zero, so the element it
+        # carries stays conserved
+        have = {s_["name"] for s_ in net["species"]}
+        extra = [a for a in ("He", "Ar", "Ne", "P", "F") if a not in have and a in chem.MASSNUM]
+        if extra:
+            a = rng.choice(extra)
+            net["species"].append(chem.make_species([(a, 1)]))
+            net["required"] = [a]
+            case["isolated_required"] = a
     reacs = net["reactions"]
     case["alphas"] = chem.distinct_alphas(rng, len(reacs))
     if reacs and rng.random() < 0.5 and not case.get("grain_charging"):
@@ -243,7 +253,7 @@ def build_network(case, work):
         for r, a in zip(net["reactions"], alphas):
             res = [respell(x, sp, "#") for x in r["reactants"]] + ([r["pseudo"]] if r.get("pseudo") else [])
             rl.append(Reaction(res, [respell(x, sp, "#") for x in r["products"]], alpha=a, reaction_type=RT.GAS_TWOBODY, idxfromfile=r["idx"]))
-        return Network(rl, **S.spelling_kwargs(case))
+        return Network(rl, required_species=list(net.get("required") or []) or None, **S.spelling_kwargs(case))
     files, fmts = [], []
     for ci, ch in enumerate(case["chunks"]):
         fmt = ch["format"]
@@ -260,7 +270,7 @@ def build_network(case, work):
         p.write_text("\n".join(lines) + "\n")
         files.append(str(p))
         fmts.append(fmt)
-    return Network(filelist=files, fileformats=fmts, **S.spelling_kwargs(case))
+    return Network(filelist=files, fileformats=fmts, required_species=list(net.get("required") or []) or None, **S.spelling_kwargs(case))
 
 
 def run_case(case, ctx):
@@ -365,6 +375,8 @@ def run_case(case, ctx):
         tags.add("deuterated")
     if case.get("grain_charging"):
         tags.add("grain_charge_states")
+    if case.get("isolated_required"):
+        tags.add("isolated_required_species")
     if case.get("stratum") == "isotope_ice":
         tags.add("isotope_ice")
     if case.get("spelling"):
